@@ -518,6 +518,7 @@ func c03wGenProxyReplyWrite() (string, error) {
 
 	s := header("ProxyReplyWrite", "pkg/proxy/downstream.go (downStream.appendHeaders, appendData, appendTrailers, receive, onUpstreamHeaders/Data/Trailers)",
 		"pkg/proxy/upstream.go (upstreamRequest.receiveHeaders/Data/Trailers)")
+	s += "set_option linter.unusedVariables false\n"
 	s += `/-- conditions around a step: the endStream parameter, the error of the sender call -/
 inductive Cond where
   | tt | eos | failed
